@@ -21,6 +21,7 @@ RULE = (
     "lower bound, just above it, default, upper bound (incl. the dimension-dependent bounds of JBessel / SuperSpherical / TPLSimple) x "
     "sign scan of the d-dimensional radial Fourier transform on a log grid of wave numbers; eigenvalues of covariance matrices on "
     "lattices, clusters with near duplicates, 1-D equispaced sets, sphere points (Yadrenko), space-time sets; |rho| <= 1, rho(0) = 1"
+    " Round and near-round (x(1+-2e-6)) optional-argument values; lat-lon(+time) models scanned in the dimension they report; eigenvalue tolerance includes the measured evaluation error of the entries."
 )
 ASSUMPTIONS = [
     "the transform is computed by QUADPACK from the model's correlation function (tied to the closed forms by C03); decision "
